@@ -316,6 +316,58 @@ fn main() {
         found_items.extend(seen.into_iter().map(|s| format!("{}: {}", path, s)));
     }
 
+    // statement slices (DESIGN §3.1 expression slicing): a contiguous run of statements of a large function, lifted verbatim into a
+    // function of its free variables (parameter list supplied by the unit); everything around it is dropped and said so
+    if let Some(slices) = spec["slices"].as_array() {
+        for sl in slices {
+            let path = sl["path"].as_str().unwrap_or_else(|| lost("slice.path"));
+            let fname = sl["fn"].as_str().unwrap_or_else(|| lost("slice.fn"));
+            let from = norm(sl["from"].as_str().unwrap_or_else(|| lost("slice.from")));
+            let to = norm(sl["to"].as_str().unwrap_or_else(|| lost("slice.to")));
+            let name = sl["name"].as_str().unwrap_or_else(|| lost("slice.name"));
+            let params = sl["params"].as_str().unwrap_or("");
+            let ret = sl["ret"].as_str().unwrap_or("");
+            let tail = sl["tail"].as_str().unwrap_or("");
+            let full = format!("{}/{}", repo, path);
+            let src = std::fs::read_to_string(&full).unwrap_or_else(|e| lost(&format!("{full}: {e}")));
+            let file = syn::parse_file(&src).unwrap_or_else(|e| lost(&format!("{full}: parse error {e}")));
+            // locate the function body
+            let mut body: Option<syn::Block> = None;
+            for item in file.items.iter() {
+                match item {
+                    syn::Item::Fn(f) if f.sig.ident == fname => body = Some((*f.block).clone()),
+                    syn::Item::Impl(im) => {
+                        let ty = type_name(&im.self_ty);
+                        let ty_key = ty.split('<').next().unwrap_or(&ty).to_string();
+                        for it in im.items.iter() {
+                            if let syn::ImplItem::Fn(m) = it {
+                                if format!("{}::{}", ty_key, m.sig.ident) == fname { body = Some(m.block.clone()); }
+                            }
+                        }
+                    }
+                    _ => {}
+                }
+            }
+            let body = body.unwrap_or_else(|| lost(&format!("slice: function {} not found in {}", fname, path)));
+            let idx_of = |pfx: &str, start: usize| -> Option<usize> {
+                body.stmts.iter().enumerate().skip(start).find(|(_, st)| tokens_norm(*st).starts_with(pfx)).map(|(i, _)| i)
+            };
+            let a = idx_of(&from, 0).unwrap_or_else(|| lost(&format!("slice {}: start statement `{}` not found in {}", name, from, fname)));
+            let b = idx_of(&to, a).unwrap_or_else(|| lost(&format!("slice {}: end statement `{}` not found in {}", name, to, fname)));
+            let stmts: Vec<syn::Stmt> = body.stmts[a..=b].to_vec();
+            let sig_txt = format!("fn {}({}) {} {{ }}", name, params, if ret.is_empty() { String::new() } else { format!("-> {}", ret) });
+            let mut f: syn::ItemFn = syn::parse_str(&sig_txt).unwrap_or_else(|e| lost(&format!("slice {}: bad signature `{}`: {}", name, sig_txt, e)));
+            f.block.stmts = stmts;
+            if !tail.is_empty() {
+                let te: syn::Expr = syn::parse_str(tail).unwrap_or_else(|e| lost(&format!("slice {}: bad tail: {}", name, e)));
+                f.block.stmts.push(syn::Stmt::Expr(te, None));
+            }
+            dropped.push(format!("slice {}: statements {}..={} of {} ({}); the rest of that function is NOT in this unit", name, a, b, fname, path));
+            found_items.push(format!("{}: slice {} of {}", path, name, fname));
+            out.push_str(&weave::emit_fn(None, name, f, &mut contracts, &mut ctx, &mut report_fns, &mut assumed));
+        }
+    }
+
     // unused contract blocks => selector matches nothing => exit 2
     for (name, blocks) in &contracts.by_fn {
         for b in blocks {
